@@ -87,11 +87,15 @@ class Namer:
                     n, cls = _rand_case(rng, n), "anml-keyword-case-variant"
             elif y < 0.75:
                 n, cls = rng.choice(SYMBOLS), "symbols"
-            elif y < 0.85:
+            elif y < 0.83:
                 n, cls = rng.choice(DIGITS), "leading-digit-or-punct"
             elif self.seen:
-                base, bk = rng.choice(self.seen)
-                n, cls = _mangled_forms(rng, base, bk), "mangled-form-of-another"
+                same = [(b, k) for b, k in self.seen if k == kind] or self.seen
+                base, bk = rng.choice(same if rng.random() < 0.7 else self.seen)
+                if rng.random() < 0.35 and base.lower() != base.upper():
+                    n, cls = _rand_case(rng, base), "case-variant"
+                else:
+                    n, cls = _mangled_forms(rng, base, bk), "mangled-form-of-another"
             else:
                 n, cls = _rand_case(rng, rng.choice(CASE_BASES)), "case-variant"
         self.seen.append((n, kind))
